@@ -82,6 +82,11 @@ Proof.
   - intros [g Hg]. exists (EPrune g i ASkip). split; [exact Hg|left; reflexivity].
 Qed.
 
+Lemma prop_inv (A0 P X B U Q I AB AL : Prop) :
+  (X <-> (B \/ U \/ Q)) -> ~ AL -> (AB -> I -> False) ->
+  ((((A0 \/ (P /\ X)) /\ ~ AB) \/ (P /\ I)) <-> ((A0 \/ (P /\ (B \/ U \/ I \/ Q))) /\ ~ (AB \/ AL))).
+Proof. tauto. Qed.
+
 Section Final.
   Variable sc : scenario.
   Variable c0 : cluster.
@@ -257,20 +262,8 @@ Section Final.
     Proof.
       rewrite final_inventory_spec. unfold expect_of. cbv zeta.
       rewrite diffn_In, unionn_In, intern_In, in_app_iff, !in_app_iff, detached_aband, <- okap_tbl.
-      pose proof (retained_iff i) as R. pose proof (not_aliased i) as NA.
-      split.
-      - intros [[[H|[Hp H]] NB]|[Hp Hi]].
-        + split; [left; exact H|tauto].
-        + split; [right; split; [exact Hp|]; apply R in H; tauto|tauto].
-        + split; [right; split; [exact Hp|tauto]|]. intros [X|X]; [|exact (NA X)].
-          destruct (aband_pids i X) as [Hpi _]. exact (pids_valid sc c0 i Hpi Hi).
-      - intros [[H|[Hp H]] NB].
-        + left. split; [left; exact H|tauto].
-        + destruct H as [H|[H|[H|H]]].
-          * left. split; [right; split; [exact Hp|apply R; tauto]|tauto].
-          * left. split; [right; split; [exact Hp|apply R; tauto]|tauto].
-          * right. split; assumption.
-          * left. split; [right; split; [exact Hp|apply R; tauto]|tauto].
+      apply (prop_inv _ _ _ _ _ _ _ _ _ (retained_iff i) (not_aliased i)).
+      intros X Hi. destruct (aband_pids i X) as [Hpi _]. exact (pids_valid sc c0 i Hpi Hi).
     Qed.
 
     (* conjunct 2: every successfully applied object is live with our annotation *)
